@@ -9,7 +9,7 @@ from iOpt.solver import Solver
 LEVEL = "exploration"
 RULE = ("programs [construct, DoGlobalIteration(1)..., Solve] of 2-4 solver instances are interleaved in one thread. ALL interleavings are executed for 2 solvers x 4 "
         "steps (70) and 3 x 2 (90) in quick, plus 2 x 6 (924), 3 x 3 (1680), 4 x 2 (2520) in thorough, over scenario tuples in which one solver's optimum is its "
-        "first trial (the shared-default mechanisms bite there), all 70 schedules of 2 x 4 steps for sibling tuples that differ in exactly one attribute (density, r, eps, objective, box, budget, nothing, or proxies around one shared shipped problem object), plus random long interleavings with construction-only intruders. After the schedule every solver's "
+        "first trial (the shared-default mechanisms bite there), all 70 schedules of 2 x 4 steps for sibling tuples that differ in exactly one attribute (density, r, eps, objective, box, budget, nothing, proxies around one shared shipped problem object, or the very same Problem object handed to both solvers; one solver of such a pair also runs DoLocalRefinement in between), plus random long interleavings with construction-only intruders. After the schedule every solver's "
         "call log, search information and result must equal its solo run, and every Solution captured when it was returned must still report what it reported then. "
         "Non-trivial: >= 2 solvers really interleaved; distinct = (tuple index, schedule).")
 ASSUMPTIONS = ["threads are deliberately not used: the code is not concurrent and the property quantifies over step interleavings",
@@ -33,7 +33,7 @@ def scenario_tuple(rng, k, first_best):
     return scns
 
 
-SIBLING_ATTRS = ["m", "r", "eps", "obj", "box", "twin", "iters", "inner"]
+SIBLING_ATTRS = ["m", "r", "eps", "obj", "box", "twin", "iters", "inner", "sameproblem"]
 
 
 def sibling_tuple(rng, k, attr):
@@ -68,7 +68,12 @@ def sibling_tuple(rng, k, attr):
             c["iters"] = base["iters"] + 7 * s
         elif attr == "inner":
             c["r"] = base["r"] + (0.0 if rng.random() < 0.5 else 1.0)
+        elif attr == "sameproblem":
+            c["r"] = base["r"] + (0.0 if rng.random() < 0.5 else 1.0)
         scns.append(c)
+    if attr == "sameproblem":
+        for c in scns:
+            c["share_problem"] = True          # the very same Problem object is handed to every solver of the tuple
     return scns
 
 
@@ -150,13 +155,33 @@ def cases(tier, seed):
 
 
 class Inst:
+    sid = 0
+
     def __init__(self, scn):
         self.scn = scn
         self.prob = None
         self.solver = None
         self.captured = []      # (Solution object, snapshot at capture time)
 
+    def mylog(self):
+        if self.scn.get("share_problem") and getattr(self, "inners", None) is not None:
+            return [e for e in self.prob.log if e.get("o") == self.sid]
+        return self.prob.log
+
     def step(self, kind):
+        if self.prob is not None and self.scn.get("share_problem"):
+            self.prob.owner = self.sid
+        if kind == "local":
+            record.run_pattern(self.solver, [["local", 6]])
+            self.last_snap = record.snap_solution(self.solver.GetResults())
+            return
+        if kind == "construct" and self.scn.get("share_problem") and getattr(self, "inners", None) is not None:
+            if "shared-problem" not in self.inners:
+                self.inners["shared-problem"] = record.make_problem(self.scn, cap=100000)[0]
+            self.prob = self.inners["shared-problem"]
+            self.prob.owner = self.sid
+            self.solver = Solver(self.prob, parameters=record.make_params(self.scn))
+            return
         if kind == "construct":
             mode = self.scn.get("params_mode", "own")
             if mode == "default":
@@ -235,9 +260,10 @@ def run_schedule(scns, progs, sched, viol, solo, tag):
     insts = [Inst(s) for s in scns]
     sh = shared_params()
     inners = {}
-    for ins in insts:
+    for n_, ins in enumerate(insts):
         ins.shared = sh
         ins.inners = inners
+        ins.sid = n_
     pcs = [0] * len(scns)
     order_captured = []
     def idle_state(ins):
@@ -268,9 +294,9 @@ def run_schedule(scns, progs, sched, viol, solo, tag):
         if ins.solver is None:
             continue
         ref = solo[s]
-        if not log_eq(ins.prob.log, ref["log"]):
+        if not log_eq(ins.mylog(), ref["log"]):
             if len(viol) < 5:
-                viol.append({"mech": "trial-sequence-differs-from-solo", "solver": s, "schedule": sched, "len": len(ins.prob.log), "solo_len": len(ref["log"]), "tag": tag})
+                viol.append({"mech": "trial-sequence-differs-from-solo", "solver": s, "schedule": sched, "len": len(ins.mylog()), "solo_len": len(ref["log"]), "tag": tag})
         if ins.state() != ref["state"]:
             if len(viol) < 5:
                 viol.append({"mech": "search-information-differs-from-solo", "solver": s, "schedule": sched, "tag": tag})
@@ -356,6 +382,10 @@ def run_case(c):
         k, steps = c["k"], c["steps"]
         scns = sibling_tuple(rng, k, c["attr"])
         progs = [program(steps)] * k
+        if c["attr"] in ("sameproblem", "inner", "twin", "m") and steps == 4:
+            # one of the solvers polishes its optimum in between (DoLocalRefinement rewrites the best trial in place)
+            progs = [["construct", "iter", "local", "solve"], ["construct", "iter", "iter", "solve"]]
+            obs["programs_with_local_refinement"] = 1
         solo = solo_refs(scns, progs)
         for sched in c["scheds"]:
             run_schedule(scns, progs, sched, viol, solo, "siblings-%s-%dx%d" % (c["attr"], k, steps))
@@ -434,6 +464,8 @@ def finalize(obs, tier, stats):
     miss = [a for a in SIBLING_ATTRS if not obs.get("interleavings_siblings_" + a)]
     if miss:
         return "sibling tuples never exercised for: %s" % miss, {}
+    if not obs.get("programs_with_local_refinement"):
+        return "no interleaved program contained a local refinement", {}
     if not obs.get("tuples_with_first_trial_optimum") or not obs.get("intruders"):
         return "D3/D4-sensitive tuples or intruders never exercised", {}
     return None, {"schedule_spaces_exhausted": {k: v for k, v in need.items()}}
